@@ -268,4 +268,33 @@ def rule_r34(ctx):
     return rr
 
 
-RULES = [("C14-R1", rule_r1), ("C14-R2", rule_r2), ("C14-R3", rule_r34), ("C14-R5", rule_r5)]
+def rule_r6(ctx):
+    """IMPORT_FROM (reference 7.11, `import_from` in ceval): `from m import n` reads the attribute `n`
+    of the module and, when that fails, falls back to `sys.modules[f"{m.__name__}.{n}"]` (needed for
+    `from . import sibling` while the package is only partially initialised - circular imports);
+    a name that cannot be found raises ImportError, not AttributeError."""
+    from ..semwalk import iter_tnodes
+
+    rr = RuleResult("C14-R6", "from-import binds like IMPORT_FROM: attribute read with the sys.modules fallback, ImportError when missing")
+    rr.floor = 1
+    entry = ctx.tmpl.pending_by_kind("ImportFrom")
+    reported = False
+    for pr in entry.ok_paths():
+        rr.instances += 1
+        names = [t.fields.get("id").value for t in iter_tnodes(pr.result) if t.kind == "Name" and isinstance(t.fields.get("id"), Cst)]
+        attrs = [t.fields.get("attr").value for t in iter_tnodes(pr.result) if t.kind == "Attribute" and isinstance(t.fields.get("attr"), Cst)]
+        consts = [t.fields.get("value").value for t in iter_tnodes(pr.result) if t.kind == "Constant" and isinstance(t.fields.get("value"), Cst) and isinstance(t.fields["value"].value, str)]
+        has_fallback = "modules" in attrs or "modules" in names or "sys" in consts or "import_module" in attrs
+        if has_fallback:
+            rr.ok("ImportFrom|fallback")
+        elif not reported:
+            reported = True
+            rr.fail(
+                "C14-R6|ImportFrom|no-sys-modules-fallback",
+                "PendingImportFrom.get_result: an imported name is bound with a bare attribute read `tmp.name`; IMPORT_FROM falls back to sys.modules['pkg.name'] when the attribute is not set yet: a legal circular `from . import sibling` inside a package fails with AttributeError after conversion, and a missing name raises AttributeError instead of ImportError",
+                what="ImportFrom|fallback",
+            )
+    return rr
+
+
+RULES = [("C14-R1", rule_r1), ("C14-R2", rule_r2), ("C14-R3", rule_r34), ("C14-R5", rule_r5), ("C14-R6", rule_r6)]
